@@ -79,6 +79,69 @@ fn gen_noise(rng: &mut Rng, plan: &mut PlanA) {
     if rng.chance(4, 5) {
         plan.choices = (0..events + 8).map(|_| rng.u32()).collect();
     }
+    // the same process also works for other tasks in between (multi-tenant client / aggregator)
+    if rng.chance(1, 3) {
+        for _ in 0..1 + rng.below(3) {
+            let f = gen_foreign(rng, plan, events as u32);
+            plan.foreign.push(f);
+        }
+    }
+}
+
+/// Interleaved work for another task: same instance under another context, or another instance of the same class;
+/// preferably with the nonce of one of this run's reports.
+pub fn gen_foreign(rng: &mut Rng, plan: &PlanA, events: u32) -> Foreign {
+    let own = &plan.inst;
+    let other: Option<Inst> = if rng.chance(1, 2) {
+        None
+    } else {
+        match own.class.as_str() {
+            "poplar1" => {
+                let mut o = crate::inst_poplar::gen_poplar_inst(rng, false);
+                o.len = o.len.min(64);
+                Some(o)
+            }
+            "prio2" => {
+                // lengths that share the power-of-two proof size with this run's length, or any other small length
+                let mut o = own.clone();
+                o.len = match rng.below(3) {
+                    0 => own.len + 1 + rng.below(4) as u32,
+                    1 => own.len.saturating_sub(1 + rng.below(4) as u32).max(1),
+                    _ => 1 + rng.below(64) as u32,
+                };
+                Some(o)
+            }
+            _ => {
+                let mut found = None;
+                for _ in 0..40 {
+                    let mut o = gen_prio3_inst(rng, true, own.mt);
+                    if o.class == own.class {
+                        o.mt = own.mt;
+                        o.xof = own.xof.clone();
+                        found = Some(o);
+                        break;
+                    }
+                }
+                found
+            }
+        }
+    };
+    let used = other.clone().unwrap_or_else(|| own.clone());
+    let cl = 1 + rng.usize_below(8);
+    let mut ctx = rng.bytes(cl);
+    if ctx == plan.ctx.0 {
+        ctx.push(1);
+    }
+    Foreign {
+        at: rng.below(events.max(1) as u64) as u32,
+        ctx: Hx(if other.is_some() && rng.chance(1, 2) { plan.ctx.0.clone() } else { ctx }),
+        nonce_of: if rng.chance(2, 3) { Some(rng.below(plan.reports.len().max(1) as u64) as u32) } else { None },
+        nonce: Hx(rng.bytes(16)),
+        meas: model::gen_meas(&used, rng),
+        rand: Hx(rng.bytes(model::rand_len(&used))),
+        depth: rng.below(2) as u8,
+        other,
+    }
 }
 
 fn gen_mutation(rng: &mut Rng, raw_bias: bool) -> Mutation {
@@ -169,6 +232,7 @@ pub fn base_plan(inst: Inst, mode: &str, rng: &mut Rng, reports: usize) -> PlanA
         agg: gen_agg_plan(rng, n, reports, false),
         skew: None,
         skew2: None,
+        foreign: Vec::new(),
         timeouts: false,
         store_faults: Vec::new(),
         storage: Vec::new(),
@@ -1194,6 +1258,11 @@ pub fn shrink_plan_a(p: &PlanA) -> Vec<PlanA> {
     if p.inst.proofs > 1 && p.inst.class != "sumvec64" {
         let mut q = p.clone();
         q.inst.proofs = 1;
+        out.push(q);
+    }
+    for i in 0..p.foreign.len() {
+        let mut q = p.clone();
+        q.foreign.remove(i);
         out.push(q);
     }
     if p.skew2.is_some() {
